@@ -41,6 +41,10 @@ Mark ==
     \/ \E pos \in 0..(TotalChars + 1) :
           /\ ts' = Norm(MarkAtPosition(ts, pos))
           /\ op' = [op |-> "mark_position", pos |-> pos]
+    \/ \E a \in 0..(TotalChars + 1) : \E b \in 0..(TotalChars + 1) :
+          /\ a <= b
+          /\ ts' = Norm(MarkRange(ts, a, b))
+          /\ op' = [op |-> "mark_range", a |-> a, b |-> b]
 Remove ==
     \/ \E g \in {"span", "a"} :
           /\ ts' = Norm(StripTags(ts, g, <<>>))
@@ -59,7 +63,7 @@ View == <<ts, n>>
 Emit == IF Dump THEN PrintT(ToJson([pre |-> ts, op |-> op', post |-> ts'])) ELSE TRUE
 
 -----------------------------------------------------------------------------
-Inserting == {"wrap_offset", "wrap_pattern", "mark_occurrence", "mark_position"}
+Inserting == {"wrap_offset", "wrap_pattern", "mark_occurrence", "mark_position", "mark_range"}
 
 (* C09: an insertion never alters the readable text *)
 TextPreserved == [][ op'.op \in Inserting => Decode(ts') = Decode(ts) ]_vars
@@ -90,6 +94,7 @@ NoMatchNoChange ==
         /\ (op'.op = "mark_occurrence" /\ OccSlot(ts, op'.p, 1, op'.nth)[1] = 0) => ts' = ts
         /\ (op'.op = "wrap_offset" /\ op'.off >= TotalChars) => ts' = ts
         /\ (op'.op = "mark_position" /\ op'.pos > TotalChars) => ts' = ts
+        /\ (op'.op = "mark_range" /\ op'.b > TotalChars) => ts' = ts      \* no half of a range is ever inserted
       ]_vars
 
 (* C09: removing markup keeps every character that is not inside the removed *)
